@@ -1,4 +1,4 @@
-from formulae.terms.terms import Model
+from formulae.terms.terms import Model, NegatedIntercept
 
 from formulae.scanner import Scanner
 from formulae.parser import Parser
@@ -24,7 +24,11 @@ def model_description(formula):
 
     description = Resolver(Parser(Scanner(formula).scan()).parse()).resolve()
 
-    if isinstance(description, Model):
-        return description
+    if not isinstance(description, Model):
+        description = Model(description)
 
-    return Model(description)
+    # Negated intercepts ('0', '-1') only matter while the formula is resolved
+    description.common_terms = [
+        term for term in description.common_terms if not isinstance(term, NegatedIntercept)
+    ]
+    return description
